@@ -21,7 +21,7 @@ Proof. apply list_eqb_eq. intros x y. apply String.eqb_eq. Qed.
 
 Lemma ores_eqb_eq {A} (e : A -> A -> bool) :
   (forall x y, e x y = true -> x = y) -> forall a b, ores_eqb e a b = true -> a = b.
-Proof. intros He [x| |] [y| |]; cbn; try discriminate; auto. intros H. f_equal. auto. Qed.
+Proof. intros He [x| | |] [y| | |]; cbn; try discriminate; auto. intros H. f_equal. auto. Qed.
 
 Lemma flag_nil ok tag : flag ok tag = [] -> ok = true.
 Proof. destruct ok; cbn; [reflexivity|discriminate]. Qed.
@@ -96,10 +96,11 @@ Theorem K_query_sound q r :
 Proof.
   unfold check_case. intros H Hp.
   apply app_nil_inv in H as [_ H]. rewrite Hp in H.
-  destruct r as [[[es el] idx]| |].
+  destruct r as [[[es el] idx]| | |].
   - destruct (strs_eqb idx q) eqn:E.
     + apply strs_eqb_eq in E. subst. eauto.
     + destruct (last_ok q); discriminate.
+  - destruct (last_ok q); discriminate.
   - destruct (last_ok q); discriminate.
   - destruct (last_ok q); discriminate.
 Qed.
@@ -146,16 +147,21 @@ Qed.
     the same value *)
 Theorem K_equal_sound a b rab rba :
   check_case (CEqual a b rab rba) = [] ->
-  rab <> RPanic /\ rba <> RPanic /\ rab = rba /\ (rab = ROk true -> tv_equiv a b).
+  rab <> RPanic /\ rba <> RPanic /\ rab <> RDiff /\ rba <> RDiff /\
+  rab = rba /\ (rab = ROk true -> tv_equiv a b).
 Proof.
   unfold check_case. intros H. apply app_nil_inv in H as [_ H].
   destruct (is_panic rab || is_panic rba) eqn:Ep.
   - discriminate.
   - apply orb_false_iff in Ep as [E1 E2]. apply flag_nil in H.
-    apply andb_true_iff in H as [H H3]. apply andb_true_iff in H as [H1 H2].
+    apply andb_true_iff in H as [H H3]. apply andb_true_iff in H as [H H2].
+    apply andb_true_iff in H as [H H1]. apply andb_true_iff in H as [Hd1 Hd2].
+    apply negb_true_iff in Hd1, Hd2.
     assert (rab = rba).
     { apply (ores_eqb_eq Bool.eqb); [|assumption]. intros x y. apply Bool.eqb_prop. }
     repeat split; auto.
+    + intros ->. discriminate.
+    + intros ->. discriminate.
     + intros ->. discriminate.
     + intros ->. discriminate.
     + intros ->. now apply tv_same_sound.
@@ -172,18 +178,20 @@ Qed.
 
 Theorem K_fromto_sound x jvalid r1 r2 :
   check_case (CFromTo x jvalid r1 r2) = [] ->
-  r1 <> RPanic /\ r2 <> RPanic /\
+  r1 <> RPanic /\ r2 <> RPanic /\ r1 <> RDiff /\ r2 <> RDiff /\
   (forall t, r1 = ROk t -> ores_eqb gs_eqb r2 (ROk (widen x)) = true) /\
   (r1 = RErr <-> C19Check.supported x = false).
 Proof.
   unfold check_case. intros H. apply app_nil_inv in H as [_ H]. apply app_nil_inv in H as [H7 H6].
   apply flag_nil in H7. apply flag_nil in H6. apply andb_true_iff in H7 as [Hp1 Hp2].
-  apply negb_true_iff in Hp1, Hp2.
+  apply negb_true_iff in Hp1, Hp2. apply andb_true_iff in H6 as [H6 Hd2]. apply negb_true_iff in Hd2.
   repeat split.
+  - intros ->. discriminate.
+  - intros ->. discriminate.
   - intros ->. discriminate.
   - intros ->. discriminate.
   - intros t ->. now apply andb_true_iff in H6 as [_ ?].
   - intros ->. apply andb_true_iff in H6 as [H _]. now apply negb_true_iff in H.
-  - intros Hs. destruct r1; [|reflexivity|discriminate].
+  - intros Hs. destruct r1; [|reflexivity|discriminate|discriminate].
     apply andb_true_iff in H6 as [H _]. congruence.
 Qed.
